@@ -59,6 +59,7 @@ type Frame struct {
 	loops    map[*ssa.BasicBlock]*loopCtx
 	ghostPar map[string]Value
 	callStack []string
+	lastRet  ssa.Instruction
 }
 
 func (f *Frame) clone() *Frame {
